@@ -13,7 +13,8 @@ structure Base (E : Env U π) (s : St U π) : Prop where
   sinv : SInv E s
   ninv : NInv E s
   hinv : HInvN E s
-  nodel : s.deleted = []
+  /-- `deleted` only holds programs rejected by the filter -/
+  delF : ∀ q, q ∈ s.deleted → E.filter q = false
 
 /-- everything the earlier developments say about a call -/
 theorem big_all {E : Env U π} {rank : UNT U → Nat} {Good : π → Prop} (H : OHyp E rank Good) {c : Call U π}
@@ -22,7 +23,7 @@ theorem big_all {E : Env U π} {rank : UNT U → Nat} {Good : π → Prop} (H : 
       (∀ sj, c.inner ≠ some sj → Kept s s' sj) := by
   obtain ⟨a1, a2⟩ := big_sound E H.ghyp hb h.sinv h1
   obtain ⟨b1, b2, b3⟩ := big_nodup E H.ghyp hb h.sinv h1 h.ninv h2
-  exact ⟨⟨a1, b1, big_heaps_on H hb h.sinv h1 h.hinv, by rw [big_deleted E hb H.ghyp.kway]; exact h.nodel⟩,
+  exact ⟨⟨a1, b1, big_heaps_on H hb h.sinv h1 h.hinv, by rw [big_deleted E hb H.ghyp.kway]; exact h.delF⟩,
     b2, big_frame E H.ghyp rank H.acyclic hb h.sinv h1, b3, a2, big_emptyKeep E H.ghyp.kway hb⟩
 
 /-- two lists related element by element -/
@@ -113,10 +114,10 @@ theorem initPush_spec {E : Env U π} {rank : UNT U → Nat} {Good : π → Prop}
       s'.heapOf nt = items.foldl (Heapq.push (ltE E.ops)) (s.heapOf nt) ∧
       s'.seenOf nt = s.seenOf nt ++ items.map (·.2) ∧ s'.succOf nt = s.succOf nt ∧
       s'.initS = s.initS ∧ s'.maxNT = s.maxNT ∧ s'.keys = s.keys ∧
-      (∀ it, it ∈ items → ∃ v, AList.lookup (nt, it.2) s.keys = some v)
+      (∀ it, it ∈ items → ∃ v, AList.lookup (nt, it.2) s.keys = some v) ∧ s'.deleted = s.deleted
   | [], [], s, s', _, hb, hp => by
     simp only [initPush, Option.some.injEq] at hp; subst hp
-    exact ⟨hb, Only.refl nt s, Stable.refl s, rfl, by simp, rfl, rfl, rfl, rfl, by intro it hit; cases hit⟩
+    exact ⟨hb, Only.refl nt s, Stable.refl s, rfl, by simp, rfl, rfl, rfl, rfl, (by intro it hit; cases hit), rfl⟩
   | [], _ :: _, _, _, h, _, _ => h.elim
   | _ :: _, [], _, _, h, _, _ => h.elim
   | (P, v) :: rest, (pr, prog) :: items, s, s', hit, hb, hp => by
@@ -153,7 +154,7 @@ theorem initPush_spec {E : Env U π} {rank : UNT U → Nat} {Good : π → Prop}
           have hh2 : HInvN E (pushBoth E s1 nt pr1 prog) :=
             HInvN.pushBoth_on H hs1 (by intro nt'; rw [hcs.heapOf]; exact hb.hinv nt') nt pr1 prog hpr1
           have hb2 : Base E (pushBoth E s1 nt pr1 prog) :=
-            ⟨hs2, n2, hh2, by rw [hpb]; obtain ⟨c, rfl⟩ := hcs; exact hb.nodel⟩
+            ⟨hs2, n2, hh2, by rw [hpb]; obtain ⟨c, rfl⟩ := hcs; exact hb.delF⟩
           have ho2 : Only nt s (pushBoth E s1 nt pr1 prog) :=
             ((only_addSeen s nt prog).trans (only_cacheStep hcs nt)).trans (only_pushBoth E hk _ nt pr1 _)
           have hrest' : Items (ItemOK E (pushBoth E s1 nt pr1 prog) nt) rest items := by
@@ -166,10 +167,10 @@ theorem initPush_spec {E : Env U π} {rank : UNT U → Nat} {Good : π → Prop}
             · rw [hpb]
               obtain ⟨c, rfl⟩ := hcs
               exact c5
-          obtain ⟨r1, r2, r3, r4, r5, r6, r7, r8, r9, r10⟩ := initPush_spec H nt rest items _ s' hrest' hb2 hp
+          obtain ⟨r1, r2, r3, r4, r5, r6, r7, r8, r9, r10, r11⟩ := initPush_spec H nt rest items _ s' hrest' hb2 hp
           have hkeys1 : s1.keys = s.keys := by obtain ⟨c, rfl⟩ := hcs; rfl
           have hkeys2 : (pushBoth E s1 nt pr1 prog).keys = s.keys := by rw [hpb]; exact hkeys1
-          refine ⟨r1, ho2.trans r2, st2.trans r3, ?_, ?_, ?_, ?_, ?_, ?_, ?_⟩
+          refine ⟨r1, ho2.trans r2, st2.trans r3, ?_, ?_, ?_, ?_, ?_, ?_, ?_, ?_⟩
           · rw [r4, hpb, St.heapOf_setHeap, if_pos rfl, hcs.heapOf]
             rfl
           · rw [r5, hpb]
@@ -189,6 +190,7 @@ theorem initPush_spec {E : Env U π} {rank : UNT U → Nat} {Good : π → Prop}
               | some v' => exact ⟨v', by rw [← hkeys1]; exact hl⟩
             · obtain ⟨v', hv'⟩ := r10 it hit'
               exact ⟨v', by rw [← hkeys2]; exact hv'⟩
+          · rw [r11, hpb]; obtain ⟨c, rfl⟩ := hcs; rfl
 
 theorem Items.mem_right {α β : Type} {R : α → β → Prop} : ∀ {l : List α} {m : List β}, Items R l m →
     ∀ b, b ∈ m → ∃ a, a ∈ l ∧ R a b
